@@ -568,7 +568,7 @@ class OptionsParser:
 
         for idx, ch in enumerate(line):
             if escaped:
-                option += ch
+                option += ch if ch == '"' else '\\' + ch
                 escaped = False
             elif ch == '\\':
                 escaped = True
